@@ -17,7 +17,7 @@ import (
 func init() {
 	register(stream{
 		name: "meta",
-		rule: "key validation (nil, empty, 1–64 bytes, all-zero, one non-zero byte) against the model; plaintexts (empty, short, long, binary, invalid UTF-8) × key pairs: AddEncrypted then GetEncryptedString/GetEncryptedBytes, directly and after the token is sealed and unsealed (delegation and invocation, DAG-CBOR and DAG-JSON), with the right key, a wrong key, and EVERY single-bit modification of the stored value — the decryption verdict of x/crypto's secretbox.Open computed by the harness is given to the model as an oracle; stored length = plaintext + 40; two encryptions of one value differ; crypto/rand.Reader replaced by a source that fails after 0…30 bytes (encryption must fail unless a whole nonce was drawn, and store the drawn nonce); the plaintext occurs neither in the stored value nor in the sealed token. Added later: the key rules through the four WithEncryptedMeta* token options; one option value used for two tokens (ciphertexts must differ); an encrypted value under an existing key (refused or readable, never dropped silently); a plaintext returned by GetEncryptedBytes stays what it was while other values are read. Non-trivial = every case. Distinct = distinct protocol lines.",
+		rule: "key validation (nil, empty, 1–64 bytes, all-zero, one non-zero byte) against the model; plaintexts (empty, short, long, binary, invalid UTF-8) × key pairs: AddEncrypted then GetEncryptedString/GetEncryptedBytes, directly and after the token is sealed and unsealed (delegation and invocation, DAG-CBOR and DAG-JSON), with the right key, a wrong key, and EVERY single-bit modification of the stored value — the decryption verdict of x/crypto's secretbox.Open computed by the harness is given to the model as an oracle; stored length = plaintext + 40; two encryptions of one value differ; crypto/rand.Reader replaced by a source that fails after 0…30 bytes (encryption must fail unless a whole nonce was drawn, and store the drawn nonce); the plaintext occurs neither in the stored value nor in the sealed token. Added later: the key rules through the four WithEncryptedMeta* token options; one option value used for two tokens (ciphertexts must differ); an encrypted value under an existing key (refused or readable, never dropped silently); a plaintext returned by GetEncryptedBytes stays what it was while other values are read. Plaintexts of 4095…1 MiB bytes (around 4 KiB and 64 KiB) round-trip; one key BUFFER that holds key A, is overwritten with key B and then wiped: each call uses the bytes the buffer holds at that moment. Non-trivial = every case. Distinct = distinct protocol lines.",
 		run:  runMetaStream,
 		eval: evalMeta,
 		cmp: func(line, g, m string) string {
@@ -137,6 +137,12 @@ func evalMeta(line string) (out string, rd string) {
 		var i int
 		fmt.Sscan(f[1], &i)
 		return metaRoundTrip(i), rd
+	case "go.meta.size":
+		var n int
+		fmt.Sscan(f[1], &n)
+		return metaSizeRoundTrip(n), rd
+	case "go.meta.keybuffer":
+		return metaKeyBuffer(), rd
 	}
 	return "bad-line", rd
 }
@@ -153,6 +159,84 @@ func (r *failingReader) Read(p []byte) (int, error) {
 	n := copy(p, r.data)
 	r.data = r.data[n:]
 	return n, nil
+}
+
+// metaSizeRoundTrip: a plaintext of n bytes (around the sizes where a length limit or a buffer boundary would sit) is stored,
+// is 40 bytes longer in storage, and is returned unchanged with the same key and refused with another one.
+func metaSizeRoundTrip(n int) string {
+	pt := make([]byte, n)
+	for i := range pt {
+		pt[i] = byte(i*7 + n)
+	}
+	key := bytes.Repeat([]byte{0x42}, 32)
+	other := bytes.Repeat([]byte{0x43}, 32)
+	m := meta.NewMeta()
+	if err := m.AddEncrypted("v", pt, key); err != nil {
+		return fmt.Sprintf("AddEncrypted refuses a %d-byte value: %v", n, err)
+	}
+	st, _ := m.GetBytes("v")
+	if len(st) != n+40 {
+		return fmt.Sprintf("stored length %d for a %d-byte plaintext", len(st), n)
+	}
+	got, err := m.ReadOnly().GetEncryptedBytes("v", key)
+	if err != nil {
+		return fmt.Sprintf("a %d-byte value that was added cannot be read with the same key: %v", n, err)
+	}
+	if !bytes.Equal(got, pt) {
+		return fmt.Sprintf("a %d-byte value comes back changed", n)
+	}
+	if _, err := m.ReadOnly().GetEncryptedBytes("v", other); err == nil {
+		return fmt.Sprintf("a %d-byte value is returned for another key", n)
+	}
+	if err := m.AddEncrypted("s", string(pt[:n/2]), key); err != nil {
+		return fmt.Sprintf("AddEncrypted refuses a %d-byte string: %v", n/2, err)
+	}
+	return "ok"
+}
+
+// metaKeyBuffer: the key is its 32 BYTES at the time of the call, not the slice that carries them. One buffer holds key A for an
+// encryption and is then overwritten with key B (a caller rotating or wiping keys in place): a read through that buffer is a read
+// with B and must fail; a value added through it is encrypted under B; a buffer wiped to zeroes is an all-zero key and refused.
+func metaKeyBuffer() string {
+	a := bytes.Repeat([]byte{0x11}, 32)
+	b := bytes.Repeat([]byte{0x22}, 32)
+	buf := append([]byte(nil), a...)
+	m := meta.NewMeta()
+	pt := []byte("value under key A")
+	for round := 0; round < 3; round++ {
+		copy(buf, a)
+		name := fmt.Sprint("v", round)
+		if err := m.AddEncrypted(name, pt, buf); err != nil {
+			return "AddEncrypted: " + err.Error()
+		}
+		if got, err := m.ReadOnly().GetEncryptedBytes(name, buf); err != nil || !bytes.Equal(got, pt) {
+			return "a value cannot be read back through the buffer it was encrypted with"
+		}
+		copy(buf, b) // the same slice now holds key B
+		if _, err := m.ReadOnly().GetEncryptedBytes(name, buf); err == nil {
+			return "after the caller's key buffer was overwritten with another key, a read through it still returns the data (the earlier key bytes were remembered)"
+		}
+		nameB := fmt.Sprint("w", round)
+		if err := m.AddEncrypted(nameB, pt, buf); err != nil {
+			return "AddEncrypted (key B): " + err.Error()
+		}
+		if _, err := m.ReadOnly().GetEncryptedBytes(nameB, append([]byte(nil), a...)); err == nil {
+			return "a value added through a buffer that holds key B is readable with key A"
+		}
+		if got, err := m.ReadOnly().GetEncryptedBytes(nameB, append([]byte(nil), b...)); err != nil || !bytes.Equal(got, pt) {
+			return "a value added through a buffer that holds key B is not readable with a copy of key B"
+		}
+		for i := range buf {
+			buf[i] = 0 // wiped
+		}
+		if err := m.AddEncrypted(fmt.Sprint("z", round), pt, buf); err == nil {
+			return "an all-zero key is accepted when it sits in a buffer that held a valid key before"
+		}
+		if _, err := m.ReadOnly().GetEncryptedBytes(nameB, buf); err == nil {
+			return "a read with an all-zero key returns data"
+		}
+	}
+	return "ok"
 }
 
 func openOracle(key, stored []byte) string {
@@ -363,6 +447,10 @@ func runMetaStream(c *ctx) error {
 	for i := 0; i < 12; i++ {
 		c.emit(fmt.Sprintf("go.meta.roundtrip %d", i), "meta.roundtrip", true, "roundtrip")
 	}
+	for _, n := range []int{4095, 4096, 4097, 16384, 65519, 65520, 65521, 65535, 65536, 65537, 100000, 1 << 20} {
+		c.emit(fmt.Sprintf("go.meta.size %d", n), "meta.roundtrip", true, "roundtrip-size")
+	}
+	c.emit("go.meta.keybuffer 0", "meta.roundtrip", true, "key-buffer")
 	// every single-bit modification of stored values, and reads with wrong / malformed keys
 	for i, pt := range metaPlain {
 		if len(pt) > 100 && !c.thoro {
